@@ -115,18 +115,32 @@ def graph_relations(graph):
     return rel
 
 
-class FakeCoords:
+class FakeCoords(core.MockBase):
+    """the coordinates of the stand-in data: a mapping of names (values are opaque); anything else the code asks of it is outside this
+    contract (Unsupported => the section is demoted to the real-data stand-in)"""
+
     def __init__(self, names):
         self.names = set(names)
 
     def __contains__(self, n):
         return n in self.names
 
+    def __iter__(self):
+        return iter(sorted(self.names))
 
-class FakeData:
+    def __len__(self):
+        return len(self.names)
+
+    def keys(self):
+        return sorted(self.names)
+
+
+class FakeData(core.MockBase):
     def __init__(self, names):
         self.coords = FakeCoords(names)
         self.calls = []
+        self.dims = ('spectrum', 'tof')
+        self.name = ''
 
     def transform_coords(self, target, graph=None, **kw):
         self.calls.append((target, graph, kw))
@@ -162,6 +176,8 @@ def energy_mode(chk, mod):
             got = mod._deduce_energy_mode(FakeData(names), origin, target)
         except RuntimeError:
             got = 'error'
+        except (core.Unsupported, core.PathLimit):
+            raise
         except Exception as e:
             got = f'{type(e).__name__}'
         if got != want:
@@ -184,6 +200,8 @@ def graph_selection(chk, mod, g_tof, g_bl):
         n += 1
         try:
             g = mod.conversion_graph(origin, target, scatter, mode)
+        except (core.Unsupported, core.PathLimit):
+            raise
         except Exception as e:
             bad.append((origin, target, scatter, mode, f'raised {type(e).__name__}: {e}'))
             continue
@@ -222,12 +240,16 @@ def convert_contract(chk, mod):
             rep = mod.deduce_conversion_graph(FakeData(names), origin, target, scatter)
         except RuntimeError:
             rep = 'error'
+        except (core.Unsupported, core.PathLimit):
+            raise
         except Exception as e:
             rep = type(e).__name__
         try:
             res = mod.convert(d, origin, target, scatter)
         except RuntimeError:
             res = 'error'
+        except (core.Unsupported, core.PathLimit):
+            raise
         except Exception as e:
             res = type(e).__name__
         if rep == 'error' or res == 'error':
@@ -256,6 +278,8 @@ def convert_contract(chk, mod):
             outcomes[label] = 'returned'
         except RuntimeError as e:
             outcomes[label] = 'RuntimeError'
+        except (core.Unsupported, core.PathLimit):
+            raise
         except Exception as e:
             outcomes[label] = type(e).__name__
     ok = (outcomes['KeyError(target)'] == outcomes['KeyError(other-name)'] == outcomes['KeyError(long-message)'] == 'RuntimeError'
@@ -290,6 +314,8 @@ def derivability(chk, mod):
                     if key not in rel_cache:
                         try:
                             rel_cache[key] = (graph_relations(mod.conversion_graph(origin, target, scatter, mode)), spec_relations(origin, target, scatter, mode))
+                        except (core.Unsupported, core.PathLimit):
+                            raise
                         except Exception as e:
                             rel_cache[key] = (None, None)
                             bad.append((origin, target, scatter, sorted(present), f'conversion_graph raised {type(e).__name__}'))
